@@ -93,7 +93,7 @@ def gen_device_code(modname, c, af, rng, devname=None):
     def walk(block, chain, counts, depth):
         if depth > 6 or len(chains) > 60:
             return
-        for meth in block["methods"]:
+        for mi, meth in enumerate(block["methods"]):
             cnt = int(meth["repeat"]["count"]) if meth["repeat"] else None
             if cnt == 0:
                 continue
@@ -104,10 +104,10 @@ def gen_device_code(modname, c, af, rng, devname=None):
                 if sub is not None:
                     walk(sub, ch, cs, depth + 1)
             else:
-                chains.append((ch, cs))
+                chains.append((ch, cs, (block["name"], mi)))
     walk(root, [], [], 0)
     tag = 0
-    for ch, cs in chains:
+    for ch, cs, leaf_pos in chains:
         valid, invalid = index_tuples(cs, rng)
         leaf = ch[-1]
         for tup, is_valid in [(t, True) for t in valid] + [(t, False) for t in invalid[:2]]:
@@ -141,7 +141,7 @@ def gen_device_code(modname, c, af, rng, devname=None):
                 code.append(f"    {{ let r = std::panic::catch_unwind(|| {{ let mut dev = m::{dev}::new(M::new()); {expr} }}); "
                             f"let l = mock::take(); match r {{ Ok(v) => println!(\"{t} ok {{}} {{}}\", l, v.unwrap_or_default()), Err(_) => println!(\"{t} panic {{}}\", l) }} }}")
                 lines.append({"tag": t, "kind": "access", "action": aname, "chain": [(m["name"], i) for m, i in zip(ch, tup)],
-                              "valid": is_valid, "leaf": leaf})
+                              "valid": is_valid, "leaf": leaf, "leaf_pos": leaf_pos})
     # field sets: constructors, getters and setters of raw / bool fields on a few byte patterns
     for fs in af["field_sets"][:12]:
         n = fs["size_bytes"]
@@ -232,9 +232,36 @@ def expectations(c, af, lines):
     return want_addr
 
 
-def compare(c, af, lines, printed, want_addr):
+def model_ops(mf):
+    """(block name, accessor position) -> the operation object the Lean model (DDV.Gen.OpSem) says that accessor returns."""
+    out = {}
+    for b in (mf or {}).get("op_tables") or []:
+        for i, op in enumerate(b.get("ops") or []):
+            out.setdefault((b["block"], i), op)
+    return out
+
+
+def wire_expected(action, op, addr):
+    """The single interface call the runtime model (DDV.Proto) prescribes for `action` on the operation `op`,
+    in the mock's log format."""
+    hx = lambda bs: "".join("%02x" % b for b in bs) or "-"
+    nb = lambda bits: (bits + 7) // 8
+    if action == "write":
+        return f"w:{addr}:{op['size_bits']}:{hx(op['reset'])}"
+    if action == "wzero":
+        return f"w:{addr}:{op['size_bits']}:{hx([0] * nb(op['size_bits']))}"
+    if action == "read":
+        return f"r:{addr}:{op['size_bits']}:{nb(op['size_bits'])}"
+    if action == "dispatch":
+        si, so = op.get("size_in"), op.get("size_out")
+        return f"c:{addr}:{si or 0}:{hx([0] * nb(si)) if si is not None else '-'}:{so or 0}:{nb(so) if so is not None else 0}"
+    return None
+
+
+def compare(c, af, lines, printed, want_addr, mf=None):
     """Returns a list of (why, line) mismatches."""
     bad = []
+    mops = model_ops(mf)
     cfg = c["adef"].get("config", {})
     regs = {o["name"]: o for o in oracles.all_objects(c["adef"]["objects"]) if o["kind"] == "register"}
     for ln in lines:
@@ -261,6 +288,13 @@ def compare(c, af, lines, printed, want_addr):
                 bad.append((f"{ln['action']} reached the interface at {addrs}, the definition gives {inst['address']}", ln["chain"]))
             if ln["action"] in ("read", "write", "wzero", "dispatch", "bwrite", "bread") and len(logs) != 1:
                 bad.append((f"{ln['action']} made {len(logs)} interface calls", ln["chain"]))
+            # what went over the wire against the joined Lean models: the operation object of DDV.Gen.OpSem run through
+            # the protocol of DDV.Proto (size, reset / zero bytes, buffer lengths), at the address the definition gives
+            op = mops.get(tuple(ln.get("leaf_pos") or ()))
+            if op and len(logs) == 1:
+                exp = wire_expected(ln["action"], op, inst["address"])
+                if exp is not None and logs[0] != exp:
+                    bad.append((f"{ln['action']} put `{logs[0]}` on the wire, the Lean models of the accessor and the operation give `{exp}`", ln["chain"]))
         elif ln["kind"] in ("get", "set"):
             mw = ln.get("model", ["fail"])
             if mw[0] != "ok":
